@@ -95,8 +95,11 @@ pub fn c08_twin(plan: &Plan, out: &RunOut) -> Option<Violation> {
         if da != db {
             return Some(v("c08.injection_changed_connection_state", format!("node {i}: disconnected flags with the forged packets {da:?}, without {db:?}"), i, a.final_frame));
         }
+        // progress is compared for players only: a slow spectator configured to live at the edge of
+        // its 60-frame ring can be tipped over (SpectatorTooFarBehind, the recorded C05 finding) by
+        // any shift in timing, including the one extra acknowledgement a forged packet may cost
         let (fa, fb) = (a.final_frame as i64, b.final_frame as i64);
-        if fa < fb - 10 - fb / 5 {
+        if a.is_peer && fa < fb - 10 - fb / 5 {
             return Some(v("c08.injection_cost_progress", format!("node {i} reached frame {fa} with the forged packets and frame {fb} without"), i, a.final_frame));
         }
     }
